@@ -46,6 +46,7 @@ type Model struct {
 	DeclPkg  map[*types.Func]*packages.Package
 	FileOf   map[*ast.File]*packages.Package
 	Overlays []string // overlay (positive control) file names
+	Prod     map[string]bool // module packages in the import closure of the public packages autog and autog/graph
 
 	effects map[*ssa.Function]*Effects // lazily computed
 	fx      *fxState
@@ -160,6 +161,19 @@ func Load(o LoadOpts) (*Model, error) {
 			}
 		}
 	}
+	m.Prod = map[string]bool{}
+	var addProd func(p *packages.Package)
+	addProd = func(p *packages.Package) {
+		if p == nil || m.Prod[p.PkgPath] || !inModulePath(p.PkgPath) {
+			return
+		}
+		m.Prod[p.PkgPath] = true
+		for _, ip := range p.Imports {
+			addProd(ip)
+		}
+	}
+	addProd(m.ByPath[modPath])
+	addProd(m.ByPath[modPath+"/graph"])
 	prog, spkgs := ssautil.AllPackages(pkgs, ssa.InstantiateGenerics)
 	prog.Build()
 	m.Prog = prog
